@@ -1,6 +1,7 @@
 //! anydb-mc — model-checking engines for the anydb properties (see /verif/DESIGN.md).
 
 mod codecx;
+mod crashx;
 mod eagerx;
 mod importx;
 mod lazyx;
@@ -35,6 +36,7 @@ fn main() {
     } else if args[1] == "worker" {
         match args[2].as_str() {
             "rawx" => rawx_run::worker(&args[3]),
+            "crashx" => rawx_run::crash_worker(&args[3]),
             "vecx" => vecx_run::worker(&args[3]),
             e => panic!("unknown engine {e}"),
         }
@@ -45,10 +47,20 @@ fn main() {
             usage();
         }
         match args[1].as_str() {
+            "C05" => {
+                let kf = report::KnownFindings::load();
+                let mut run = report::Run::new("C05", tier, "crashx");
+                rawx_run::add_crash(&mut run, &kf, "C05", tier, if tier == "quick" { 45 } else { 1800 });
+                run.cov("rule", serde_json::json!("breadth-first over operation histories (as rawx); for every transition, every event boundary of the operation (mmap write, set_len, sync begin/end, punch) is a crash point; at each crash point the crash images of both environments are materialised, opened with the real Database::open and judged; states are distinct by implementation state + durable image + dirty page versions"));
+                run.finish()
+            }
             p @ ("C01" | "C02" | "C10" | "C12") => {
                 let kf = report::KnownFindings::load();
                 let mut run = report::Run::new(p, tier, "rawx");
-                rawx_run::add(&mut run, &kf, p, tier, if tier == "quick" { 40 } else { 1500 });
+                rawx_run::add(&mut run, &kf, p, tier, if tier == "quick" { 25 } else { 1000 });
+                if p == "C12" {
+                    rawx_run::add_crash(&mut run, &kf, "C12", tier, if tier == "quick" { 25 } else { 800 });
+                }
                 run.cov("rule", serde_json::json!(rawx_run::RULE));
                 run.finish()
             }
